@@ -626,14 +626,14 @@ VH_TARGET(meter_sched, 4,
         }
         if (delta && cr.n_md[stream] >= 1)
         {
-          // abutting intervals; a collection that delivered nothing for the stream may or may not have
-          // moved the start (the same two-sided rule as the sequential C06 harness); the first interval of
-          // the late reader may start anywhere from SDK start on
+          // abutting intervals: each starts where the previous one handed to this reader ended, whether or
+          // not a collection that delivered nothing for the stream happened in between; the first interval
+          // of the late reader may start anywhere from SDK start on
           if (first_of_late)
             VH_CHECK(c, cr.md_start[stream] >= sdk_start && cr.md_start[stream] <= cr.md_end[stream],
                      at << ": the first delta interval of the late reader starts at " << cr.md_start[stream]
                         << " (SDK start " << sdk_start << ", end " << cr.md_end[stream] << ")");
-          else if (!empty_since)
+          else if (!empty_since || true)  // strict: an idle collection does not move the start (see the sequential harness)
             VH_CHECK(c, cr.md_start[stream] == prev_end, at << ": the delta interval starts at " << cr.md_start[stream]
                                                             << " but the previous one ended at " << prev_end
                                                             << " (SDK start " << sdk_start << ")");
